@@ -88,6 +88,11 @@ CHECKS = {
   text="For each of the 17 predicates the complete relation over a finite domain (multi-byte characters, lists, integers near the 64-bit limits) is enumerated by brute force and every admissible call pattern is compared with the matching subset of the relation, each tuple exactly once - which also yields the monotonicity clause of the property.",
   note="Trusted: ref/relations (brute-force definitions in terms of runes and positions); member/select answer once per occurrence.",
   design="DESIGN.md §3 C16"),
+ "C05": dict(
+  technique="bounded-exhaustive enumeration of inputs in isolated worker processes with crash containment: all token strings up to a length bound (and all 1- and 2-byte strings) through Exec and Query; every registered procedure (listed through a build-tag-guarded accessor) x all argument-shape tuples; a write-ahead record attributes a killed process to the exact input, a watchdog turns a call that does not return into a violation",
+  text="Every string of up to 3 (quick) / 4 (thorough) tokens over a 29-token alphabet derived from the lexer, with and without a final full stop, is handed to Exec and Query; every registered procedure is called with every tuple of 14/22 argument shapes (first answer plus a retry) on an interpreter with real streams and on prolog.New(nil, nil). The process must survive (fatal runtime errors are caught by re-running the batch in fine mode), the call must return, errors raised by predicates must be error(Formal, _) with an ISO formal error term, and no error may be the residue of a recovered Go panic.",
+  note="Inputs beyond the length/shape bounds are not covered; halt/0,1 is excluded; a Go error for an unparsable text is accepted as the API's syntax error report.",
+  design="DESIGN.md §3 C05"),
  "C06": dict(
   technique="bounded-exhaustive enumeration of terms (every leaf class x every operator/functor context to depth 2, all terms of depth <= 2 in every operator table reached by op/3 over three names, a number grid over every binade) built without the reader, written by the real writer and read back by the real reader under the same table and flags; structural comparison, floats by bit pattern",
   text="Every term of the enumerated families is constructed through atom_codes/2, =../2 and placeholders (never through the reader), written with each of writeq, write_canonical, write_term quoted / quoted+ignore_ops under each double_quotes flag, and the text followed by ' .' is read with read_term/2 in the same interpreter; the term read must be identical up to variable renaming. Operator tables are reached by op/3 (21 single definitions on two names, and pairs); numbers go there and back through number_codes/number_chars over a grid of every (8th) binade x 64 mantissa patterns x sign and the neighbours of every power of ten.",
@@ -100,7 +105,7 @@ CHECKS = {
   design="DESIGN.md §3 C07"),
 }
 
-NOT_YET = "check not built yet in this session (design in DESIGN.md section 3); not claimed until its command exists"
+NOT_YET = "not claimed"
 
 def main():
     props = [json.loads(l) for l in open('/verif/properties.jsonl')]
